@@ -62,7 +62,7 @@ theorem handleValidation_outcome (cfg : Cfg) (reqH : Header) (key : Str) (stored
     · rename_i hc
       cases h
       simp only [Bool.and_eq_true, decide_eq_true_eq, Bool.not_eq_true'] at hc
-      refine ⟨.staleIfError _ _ hc.1.2 rfl rfl ?_ (by intro r t b hh; cases hh), rfl, rfl⟩
+      refine ⟨.staleIfError _ _ hc.1.1.2 rfl rfl ?_ (by intro r t b hh; cases hh), rfl, rfl⟩
       unfold serveStale servedHeader; simp only [respWith]; exact applyStatus_get _ _
     · cases h; exact ⟨.error _, rfl, rfl⟩
   · rename_i r t1 bodyOk
@@ -91,7 +91,7 @@ theorem handleValidation_outcome (cfg : Cfg) (reqH : Header) (key : Str) (stored
       · rename_i hc
         cases h
         simp only [Bool.and_eq_true, decide_eq_true_eq, Bool.not_eq_true'] at hc
-        refine ⟨.staleIfError _ _ hc.1.2 rfl rfl ?_ (by intro r' t b hh; cases hh; exact hc.1.1.1), rfl, rfl⟩
+        refine ⟨.staleIfError _ _ hc.1.1.2 rfl rfl ?_ (by intro r' t b hh; cases hh; exact hc.1.1.1.1), rfl, rfl⟩
         unfold serveStale servedHeader; simp only [respWith]; exact applyStatus_get _ _
       · have hne : r.status ≠ 304 ∨ clientPreconditionForwarded reqH stored.resp.header = true := by
           by_cases h' : r.status = 304
